@@ -4,6 +4,8 @@ import (
 	"errors"
 	"fmt"
 	"strings"
+	"unicode"
+	"unicode/utf8"
 
 	"github.com/arnodel/golua/lib/packagelib"
 	"github.com/arnodel/golua/luastrings"
@@ -147,7 +149,7 @@ func lower(t *rt.Thread, c *rt.GoCont) (rt.Cont, error) {
 		return nil, err
 	}
 	t.RequireBytes(len(s))
-	s = strings.ToLower(string(s))
+	s = mapCase(string(s), strings.ToLower, unicode.ToLower)
 	return c.PushingNext1(t.Runtime, rt.StringValue(s)), nil
 }
 
@@ -160,8 +162,29 @@ func upper(t *rt.Thread, c *rt.GoCont) (rt.Cont, error) {
 		return nil, err
 	}
 	t.RequireBytes(len(s))
-	s = strings.ToUpper(string(s))
+	s = mapCase(string(s), strings.ToUpper, unicode.ToUpper)
 	return c.PushingNext1(t.Runtime, rt.StringValue(s)), nil
+}
+
+// mapCase changes the case of s.  Lua strings are byte strings: bytes that are
+// not part of a valid UTF-8 sequence are kept as they are (strings.ToUpper and
+// strings.ToLower would replace each of them with the 3 bytes of U+FFFD).
+func mapCase(s string, mapString func(string) string, mapRune func(rune) rune) string {
+	if utf8.ValidString(s) {
+		return mapString(s)
+	}
+	var b strings.Builder
+	b.Grow(len(s))
+	for i := 0; i < len(s); {
+		r, w := utf8.DecodeRuneInString(s[i:])
+		if r == utf8.RuneError && w == 1 {
+			b.WriteByte(s[i])
+		} else {
+			b.WriteRune(mapRune(r))
+		}
+		i += w
+	}
+	return b.String()
 }
 
 func rep(t *rt.Thread, c *rt.GoCont) (rt.Cont, error) {
